@@ -12,7 +12,7 @@
    classified (C18_shared_inventory_safe).  Races inside one operation cannot be exhibited by the
    model; ThreadSanitizer runs look for them. *)
 From Coq Require Import List NArith ZArith Arith Bool.
-From BSpl Require Import Scalar Outcome Support Poly Spline Ops Forms Generator Interp Spec Spec_Ops Spec_Gen Proofs_Support Proofs_Scalar Proofs_Poly Proofs_Binom Proofs_Eval Proofs_Outcome Proofs_Spline Proofs_Forms Proofs_Ops Proofs_Forms2 Proofs_Interp Proofs_Pred Proofs_Gen Instances Instances_Ext Proofs_Valid Solver Pool Quad Proofs_Pool Proofs_Quad Proofs_Rounded Proofs_Threads Proofs_Updates Examples Proofs_Examples Proofs_Analysis Proofs_Smooth Proofs_Laws Proofs_Sites.
+From BSpl Require Import Scalar Outcome Support Poly Spline Ops Forms Generator Interp Spec Spec_Ops Spec_Gen Proofs_Support Proofs_Scalar Proofs_Poly Proofs_Binom Proofs_Eval Proofs_Outcome Proofs_Spline Proofs_Forms Proofs_Ops Proofs_Forms2 Proofs_Interp Proofs_Pred Proofs_Gen Instances Instances_Ext Proofs_Valid Solver Pool Quad Proofs_Pool Proofs_Quad Proofs_Rounded Proofs_Threads Proofs_Updates Examples Proofs_Examples Proofs_Analysis Proofs_Smooth Proofs_Laws Proofs_Shared.
 Import ListNotations.
 
 
@@ -71,7 +71,7 @@ Proof. exact (@Proofs_Threads.thr_discipline_needed). Qed.
 
 Theorem C18_shared_inventory_safe :
     forallb shared_covered Shared.shared_sites = true.
-Proof. exact (@Proofs_Sites.shared_inventory_safe). Qed.
+Proof. exact (@Proofs_Shared.shared_inventory_safe). Qed.
 
 
 Print Assumptions C18_interleave_deterministic.
